@@ -26,7 +26,9 @@ func wildCfg() gen.Cfg {
 	c.Unicode = true
 	c.Fatal = true
 	for _, g := range []string{"exit-pending"} {
-		_ = g // C02 only asks for "returns control": residue-type findings of C01 are in scope here too
+		if pk.GateOpen(g) {
+			c.Off[g] = true
+		}
 	}
 	return c
 }
